@@ -11,6 +11,7 @@ import nfc.llcp.pdu as pdu_mod
 import nfc.llcp.err as err_mod
 
 CLIENTS = ("c1", "c2")
+SVC, NOSVC = b"urn:nfc:sn:conn", b"urn:nfc:sn:nope"      # the name B binds / a name nobody binds
 
 
 class HarnessError(RuntimeError):
@@ -48,7 +49,7 @@ class Rig(object):
         L = nfc.llcp.Socket(B, nfc.llcp.DATA_LINK_CONNECTION)
         L.setsockopt(nfc.llcp.SO_RCVMIU, cfg["lrmiu"])
         L.setsockopt(nfc.llcp.SO_RCVBUF, cfg["lrw"])
-        L.bind(b"urn:nfc:sn:conn")                      # first named address = 16
+        L.bind(SVC)                                     # first named address = 16
         if cfg["listener"]:
             L.listen(cfg["backlog"])
         self.L = L
@@ -58,7 +59,9 @@ class Rig(object):
     def pw(self, w):
         out = []
         for p in w:
-            out.append(dict(t=p.name, d=p.dsap, s=p.ssap, reason=getattr(p, "reason", 0) if p.name == "DM" else 0))
+            sn = getattr(p, "sn", None) if p.name == "CONNECT" else None
+            out.append(dict(t=p.name, d=p.dsap, s=p.ssap, reason=getattr(p, "reason", 0) if p.name == "DM" else 0,
+                            sn={None: "", SVC: "svc", NOSVC: "nosvc"}.get(sn, "other")))
         return out
 
     def proj(self):
@@ -74,7 +77,7 @@ class Rig(object):
         return dict(cl=cl, nrq=len(self.L._tco.recv_queue), acc=acc, ab=self.pw(self.ab), ba=self.pw(self.ba))
 
     def log(self, a, **kw):
-        rec = dict(a=a, c="-", i=0, sent=0, got=0, post=self.proj())
+        rec = dict(a=a, c="-", i=0, sent=0, got=0, how="-", post=self.proj())
         rec.update(kw)
         self.ev.append(rec)
 
@@ -94,12 +97,13 @@ class Rig(object):
                 del self.closing[k]
 
     # -- actions -----------------------------------------------------------------------------------
-    def connect(self, c):
+    def connect(self, c, how="sap"):
         s = self.cl[c]
+        dest = {"sap": 16, "name": SVC, "noname": NOSVC}[how]
 
         def run():
             try:
-                s.connect(16)
+                s.connect(dest)
                 self.res[c] = "OK"
             except err_mod.ConnectRefused as e:
                 self.res[c] = {0x20: "REFUSED-BUSY", 0x02: "REFUSED-NOSVC"}.get(e.reason, "REFUSED")
@@ -110,7 +114,7 @@ class Rig(object):
         t.start()
         wait(lambda: s._tco.state.CONNECT and len(s._tco.send_queue) > 0)
         self.drain(self.A, self.ab)
-        self.log("Connect", c=c)
+        self.log("Connect", c=c, how=how)
 
     def deliver_b(self):
         p = self.ab.pop(0)
@@ -260,7 +264,7 @@ def run_conn(seed, listener=True):
             for c in CLIENTS:
                 d = R.cl[c]._tco
                 if d.state.CLOSED and R.res[c] == "-" and c not in R.thr:
-                    opts.append(("connect", c))
+                    opts.append(("connect", c, rnd.choice(["sap", "name", "name", "noname"])))
                 if d.state.ESTABLISHED and ("c", c) not in R.closing and c not in R.thr:
                     opts.append(("close_client", c))
                 if d.state.CLOSE_WAIT and len(d.recv_queue) > 0 and str(d.recv_queue[0].name) == "DISC":
@@ -304,6 +308,7 @@ CONSTANTS
   LinkMiuA = %d
   LinkMiuB = %d
   MaxAcc = 100
+  Hows = {"sap", "name", "noname"}
   ListenerPresent = %s
   EarlyOrder = "cc-first"
 CONSTRAINT Done
@@ -324,8 +329,10 @@ def stage(ck, quick, seed, tlc, PID):
     e = tlc.run("LlcpConn.tla", "MC_LlcpConn_early.cfg", PID, workers=4, timeout=300)
     if "NoEarlyLoss" not in e.violated:
         raise tlc.TLCError("vacuous: the data-first model does not lose the early data")
-    hit, _ = tlc.witnesses("LlcpConn.tla", "MC_LlcpConn_quick.cfg", PID, ["W_Established", "W_Busy", "W_Closed", "W_PeerClosed", "W_EarlyData"])
-    if len(hit) != 5:
+    hit, _ = tlc.witnesses("LlcpConn.tla", "MC_LlcpConn_quick.cfg", PID, ["W_Established", "W_Busy", "W_Closed", "W_PeerClosed", "W_EarlyData", "W_NoName"])
+    hit2, _ = tlc.witnesses("LlcpConn.tla", "MC_LlcpConn.cfg", PID, ["W_ByName"])     # needs a connection MIU above 128
+    hit |= hit2
+    if len(hit) != 7:
         raise tlc.TLCError("vacuous LlcpConn model: %s" % sorted(hit))
     groups = collections.defaultdict(list)
     n = 60 if quick else 1200
